@@ -48,7 +48,10 @@ type c19In struct {
 }
 
 const (
-	c19Bound = 1 << 40 // the theorems' hypothesis: 0 < base, factor, cap <= 2^40 (ms)
+	c19Bound = 1 << 40 // the bulk of the random parameters lies in [1, 2^40] ms (34 years)
+	// the largest whole number of ms a time.Duration holds (MaxInt64 / 10^6): beyond it
+	// min(cap, base*factor^n) ms is not a Duration; the code saturates there (D22, repaired)
+	c19MaxMs = math.MaxInt64 / c19Ms
 	c19Ms    = 1000000 // ns per ms
 	// mode 3: a wait is measured from the server seeing the failed attempt end to the server
 	// accepting the next connection; it may exceed the back-off delay by connection set-up and
@@ -64,7 +67,7 @@ func (c19) ID() string    { return "C19" }
 func (c19) RunFn() string { return "run_C19" }
 func (c19) Workers() int  { return 8 }
 func (c19) Rule() string {
-	return "random (base, factor, cap) in [1, 2^40] (small values, powers of two, values at and just below 2^40, zero = default; the defaults are read from the live code through VerifBackoffDefaults, only 'at most three minutes when the cap is left unset' is a literal of the property), with and without jitter (a jittered delay is compared through its range only: 0 <= delay <= the no-jitter delay of that attempt, any resolution), through durationForAttempt(n) (n = 0..70, around the attempt where base*factor^n passes the cap, around the attempts where factor^n and base*factor^n overflow float64, 2^31-1 / 2^31 / 2^31+1, random up to 2^31, 2^53, 2^62, MaxInt64), duration() sequences (up to 70 calls, a few past the float64 overflow point) and duration() sequences after k calls and reset(); cap below / equal to the base and cap = base*factor^k-1, +0, +1 (with attempt 0, factor 1 and the attempts around k) through both APIs; StreamManager scenarios (real Client + StreamManager on the scripted TCP server: session, drop, 5-8 transient negotiation failures, success, second drop, 2-3 failures, success, Stop): the wait after the n-th failed attempt of EVERY outage, measured on the server between the end of that attempt and the next accept, is at most default_base*default_factor^n ms + 500 ms slack (defaults read from the live code), i.e. the sequence restarts after a successful reconnection (Coq: C19_outages_restart / C19_formula_seq_after_reset give the bounds the model returns for the observed attempt counts; C19_jitter_range makes the no-jitter value the bound); a malformed stream outside the property's quantification (negative base / factor / cap, negative attempt numbers: both sides answer a constant, the call only has to leave the harness alive) and a few fixed caps above the stated bound (D22); distinct = distinct (mode, jitter, bit lengths of base/factor/cap, class of n relative to the cap crossing / float overflow); non-trivial = positive parameters within the bound, factor >= 2, base < cap and at least one observed attempt number >= 1"
+	return "random positive (base, factor, cap): mostly in [1, 2^40] ms, one case in twelve anywhere up to MaxInt64 (around MaxInt64/10^6 ms = the longest Duration, around 2^53, powers of two, MaxInt64 = 'uncapped': the delay must then saturate at the longest Duration instead of wrapping - D22, repaired) (small values, powers of two, values at and just below 2^40, zero = default; the defaults are read from the live code through VerifBackoffDefaults, only 'at most three minutes when the cap is left unset' is a literal of the property), with and without jitter (a jittered delay is compared through its range only: 0 <= delay <= the no-jitter delay of that attempt, any resolution), through durationForAttempt(n) (n = 0..70, around the attempt where base*factor^n passes the cap, around the attempts where factor^n and base*factor^n overflow float64, 2^31-1 / 2^31 / 2^31+1, random up to 2^31, 2^53, 2^62, MaxInt64), duration() sequences (up to 70 calls, a few past the float64 overflow point) and duration() sequences after k calls and reset(); cap below / equal to the base and cap = base*factor^k-1, +0, +1 (with attempt 0, factor 1 and the attempts around k) through both APIs; StreamManager scenarios (real Client + StreamManager on the scripted TCP server: session, drop, 5-8 transient negotiation failures, success, second drop, 2-3 failures, success, Stop): the wait after the n-th failed attempt of EVERY outage, measured on the server between the end of that attempt and the next accept, is at most default_base*default_factor^n ms + 500 ms slack (defaults read from the live code), i.e. the sequence restarts after a successful reconnection (Coq: C19_outages_restart / C19_formula_seq_after_reset give the bounds the model returns for the observed attempt counts; C19_jitter_range makes the no-jitter value the bound); a malformed stream outside the property's quantification (negative base / factor / cap, negative attempt numbers: both sides answer a constant, the call only has to leave the harness alive); distinct = distinct (mode, jitter, bit lengths of base/factor/cap, class of n relative to the cap crossing / float overflow); non-trivial = positive parameters within the bound, factor >= 2, base < cap and at least one observed attempt number >= 1"
 }
 
 // ---- exact arithmetic shared by generator and oracle (math/big; no model) ----
@@ -289,8 +292,16 @@ func (c19) Gen(r *rand.Rand, tier string) []interface{} {
 			add(c19In{Mode: 2, NoJitter: nj, Base: 0, Factor: f, Cap: 7, K: 3, N: 4})
 		}
 	}
-	// D22 (known finding): caps above the stated bound; values chosen so that float64
-	// is still exact (below 2^53, or saturating at a cap that is a power of two)
+	// D22 (repaired): caps beyond what a time.Duration can hold (MaxInt64/10^6 ms) used to
+	// give negative / wrapped / decreasing delays and, with jitter, a panic in rand.Intn
+	for _, nj := range []bool{true, false} {
+		add(c19In{Mode: 1, NoJitter: nj, Base: 1, Factor: 2, Cap: math.MaxInt64, N: 70}) // "uncapped"
+		add(c19In{Mode: 0, NoJitter: nj, Base: 1, Factor: 2, Cap: math.MaxInt64, N: 59})
+		add(c19In{Mode: 0, NoJitter: nj, Base: 20, Factor: 2, Cap: c19MaxMs + 1, N: 64})
+		add(c19In{Mode: 0, NoJitter: nj, Base: 20, Factor: 2, Cap: c19MaxMs, N: 64})
+		add(c19In{Mode: 2, NoJitter: nj, Base: 3, Factor: 7, Cap: 1 << 62, K: 5, N: 19})
+		add(c19In{Mode: 0, NoJitter: nj, Base: math.MaxInt64, Factor: math.MaxInt64, Cap: math.MaxInt64, N: math.MaxInt64})
+	}
 	add(c19In{Mode: 1, NoJitter: true, Base: 3, Factor: 7, Cap: 1 << 62, N: 19})
 	add(c19In{Mode: 0, NoJitter: true, Base: 3, Factor: 7, Cap: 1 << 62, N: 15})
 	add(c19In{Mode: 0, NoJitter: true, Base: 3, Factor: 7, Cap: 1 << 62, N: 1000000})
@@ -321,6 +332,29 @@ func (c19) Gen(r *rand.Rand, tier string) []interface{} {
 			in.Base = -c19Val(r)
 		case 7:
 			in.Factor = -1 - r.Intn(5)
+		}
+		if r.Intn(12) == 0 { // any positive int: beyond 2^40, around MaxInt64/10^6 ms, up to MaxInt64
+			wide := func() int {
+				switch r.Intn(6) {
+				case 0:
+					return c19MaxMs - 2 + r.Intn(5)
+				case 1:
+					return math.MaxInt64 - r.Intn(3)
+				case 2:
+					return 1 << uint(41+r.Intn(22))
+				case 3:
+					return (1 << 53) - 2 + r.Intn(5)
+				default:
+					return 1 + int(r.Int63())
+				}
+			}
+			in.Cap = wide()
+			if r.Intn(3) == 0 {
+				in.Base = wide()
+			}
+			if r.Intn(3) == 0 {
+				in.Factor = wide()
+			}
 		}
 		if r.Intn(3) == 0 { // make base well below cap so that the growth phase is long
 			in.Base = 1 + r.Intn(50)
@@ -371,6 +405,11 @@ func (c19) Gen(r *rand.Rand, tier string) []interface{} {
 			}
 			if r.Intn(60) == 0 { // malformed: a negative attempt number
 				in.N = -1 - r.Intn(70)
+			}
+			if c19OutOfDomain(&in) && in.N > 70 {
+				// outside the property nothing is required of the code, not even that a huge
+				// attempt number is handled without iterating: keep such calls small
+				in.N = r.Intn(71)
 			}
 		case m < 8:
 			in.Mode = 1
@@ -529,14 +568,8 @@ func (c19) Oracle(inp interface{}, obs Sx) (string, string) {
 		// Report what that does: a panic in rand.Intn, or delays that are not positive.
 		return c19OracleBadDefault(in, obs, base, factor, cp)
 	}
-	huge := base > c19Bound || factor > c19Bound || cp > c19Bound
 	mode := []string{"query", "seq", "reset"}[in.Mode]
-	sig := func(s string) string {
-		if huge {
-			return "huge-cap-overflow"
-		}
-		return s + "-" + mode
-	}
+	sig := func(s string) string { return s + "-" + mode }
 	where := fmt.Sprintf("%s nojitter=%v base=%d factor=%d cap=%d", mode, in.NoJitter, base, factor, cp)
 	if in.Mode == 2 {
 		where += fmt.Sprintf(" k=%d", in.K)
@@ -575,7 +608,12 @@ func (c19) Oracle(inp interface{}, obs Sx) (string, string) {
 			return "malformed observation", "shape"
 		}
 		d := big.NewInt(c.L[1].Z)
-		want := new(big.Int).Mul(c19Expect(base, factor, cp, attempt), ms)
+		wantMs := c19Expect(base, factor, cp, attempt)
+		want := new(big.Int).Mul(wantMs, ms)
+		// a number of ms no time.Duration can hold (cap and base*factor^n both above
+		// MaxInt64/10^6 ms = 292 years): the delay cannot equal it; it must then be as long
+		// as a Duration can be (whole ms: at least c19MaxMs ms)
+		unrepresentable := wantMs.Cmp(big.NewInt(c19MaxMs)) > 0
 		// never negative, never above the cap
 		if d.Sign() < 0 {
 			return fmt.Sprintf("%s attempt %d: negative delay %d ns", where, attempt, d), sig("negative")
@@ -588,8 +626,11 @@ func (c19) Oracle(inp interface{}, obs Sx) (string, string) {
 		}
 		if in.NoJitter {
 			// equals min(cap, base*factor^n) ...
-			if d.Cmp(want) != 0 {
+			if !unrepresentable && d.Cmp(want) != 0 {
 				return fmt.Sprintf("%s attempt %d: delay %d ns, expected min(cap, base*factor^n) = %d ns", where, attempt, d, want), sig("formula")
+			}
+			if unrepresentable && d.Cmp(new(big.Int).Mul(big.NewInt(c19MaxMs), ms)) < 0 {
+				return fmt.Sprintf("%s attempt %d: delay %d ns, but min(cap, base*factor^n) = %d ms is more than a time.Duration can hold: expected the longest Duration (%d ms)", where, attempt, d, wantMs, int64(c19MaxMs)), sig("formula-saturated")
 			}
 			// ... and is therefore non-decreasing
 			if prev != nil && d.Cmp(prev) < 0 {
@@ -619,8 +660,10 @@ func (c19) Key(inp interface{}) (string, bool) {
 	switch {
 	case c19OutOfDomain(in):
 		stream = "malformed-negative-cap"
+	case cp > c19MaxMs:
+		stream = "cap-beyond-duration"
 	case base > c19Bound || factor > c19Bound || cp > c19Bound:
-		stream = "above-bound"
+		stream = "above-2^40"
 	case in.Base == 0 || in.Factor == 0 || in.Cap == 0:
 		stream = "defaults"
 	}
@@ -683,7 +726,7 @@ func (c19) Key(inp interface{}) (string, bool) {
 		return bits.Len64(uint64(x))
 	}
 	key := fmt.Sprintf("%d/%v/%d/%d/%d/%s/%d", in.Mode, in.NoJitter, bl(in.Base), bl(in.Factor), bl(in.Cap), ncls, bl(in.K))
-	nontrivial := stream != "malformed-negative-cap" && stream != "above-bound" && factor >= 2 && base < cp && top >= 1
+	nontrivial := stream != "malformed-negative-cap" && stream != "cap-beyond-duration" && factor >= 2 && base < cp && top >= 1
 	return key, nontrivial
 }
 
